@@ -160,6 +160,20 @@ CHECKS = {
              "breadth-first sequence by identity), find/find_related over keys x types x all 32 flag combinations "
              "(trees <=4/5), plus four large deterministic trees; compared with ref/paths.py.",
         design="DESIGN.md C14"),
+    "C15": dict(
+        engine="input",
+        category="model_checking",
+        technique="deviation-bounded exhaustive enumeration of abstract 1.0 documents (rendered to 1.0 XML/JSON/YAML by an independent "
+                  "generator) against a reference mapping to 1.1",
+        text="A 1.0 baseline deviated by every single deviation and every pair (triples over a core, thorough) out of 90: 0-3 value "
+             "elements, value texts with comma / brackets / quote / padding / empty / non-ASCII at first, later and single position, "
+             "each liftable attribute on the first, a later, all, conflicting value elements and on a text-less value element, "
+             "int/float type conflict, dtype spelling, binary, clashing names (p,p / p,p,p / p,p,p-2 / p,p-2,p / p,q,p) among "
+             "Properties, top-level and nested Sections, a sub-Section and a Property sharing a name, id forms x three levels, "
+             "unsupported elements at four levels, unnamed Properties at three positions, dependency_value spellings; x {XML StringIO, "
+             "XML file, JSON file, YAML file} x {convert, str, write_to_file}: output loads in the strict reader, equals the "
+             "reference mapping, every dropped or overridden item is in the log, the source is untouched.",
+        design="DESIGN.md C15"),
     "C18": dict(
         engine="schedule",
         category="model_checking",
